@@ -15,6 +15,16 @@ E1_TECH = ('bounded symbolic execution of the real yatiml/PyYAML code with '
            'bounds), counterexamples replayed on the unstubbed public API')
 
 CHECKS = {
+    'C12': dict(
+        text='Bounded end-to-end symbolic execution of the generated load, '
+             'dump and dump_json functions on solver-chosen values and '
+             'documents (valid and invalid): text written to a file name, a '
+             'Path and a text stream equals the dumps variant for the same '
+             'options; str, Path, text stream and binary stream (UTF-8, BOM, '
+             'UTF-16) sources give equal results or the same error class. '
+             'The thinnest claim of the set: per path everything is '
+             'concrete.',
+        design='4/C12'),
     'C06': dict(
         text='Bounded end-to-end symbolic execution of the public dumps '
              'function on solver-chosen values of 13 class models: purity '
